@@ -25,7 +25,7 @@ def fractional_transfer(
         tuple[Ballot,...]:
             Modified ballots with transferred weights and the winning candidate removed.
     """
-    transfer_value = (fpv - threshold) / fpv
+    transfer_value = (fpv - threshold) / Fraction(fpv)
 
     transfered_ballots = [Ballot()] * len(ballots)
     for i, ballot in enumerate(ballots):
